@@ -64,7 +64,7 @@ template <class C> struct Runner {
     }
 };
 void run(Ctx &ctx) {
-    Local lc; Runner<char> ra(&ctx, &lc); Runner<wchar_t> rw(&ctx, &lc); SanWatch sw; int L = ctx.secondary ? 3 : ctx.quick() ? 5 : 6;
+    Local lc; Runner<char> ra(&ctx, &lc); Runner<wchar_t> rw(&ctx, &lc); SanWatch sw; int L = (ctx.secondary ? 3 : ctx.quick() ? 5 : 6) + ctx.bonus;
     all_strings(ctx, Str("aC:/\\ %#?.41\x01\xff", 14), L, [&](const Str &s) { if (ctx.expired()) return; lc.names++; for (int dir = 0; dir < 2; dir++) { ra.one(s, dir); rw.one(s, dir); } });
     // every byte value in every kind of position (first character, after a separator, inside a UNC server name, after a drive prefix)
     { uint64_t bi = 0; for (int c = 1; c < 256; c++) { if (!ctx.mine(bi++)) continue; Str x(1, (char)c);
